@@ -1,7 +1,7 @@
 #!/bin/sh
 # usage: seed_all.sh <ID> <demo pkg dir> <tier> <check ids...>
 id=$1; pkg=$2; tier=$3; shift; shift; shift
-for m in /tmp/seed/$id/out/m*/; do
+for m in ${SEEDBASE:-/tmp/seed}/$id/out/m*/; do
   echo "##### $id $(basename $m)"
   mp=$pkg
   if [ "$pkg" = auto ]; then mp=$(grep -h -m1 "^package " $m/*_test.go | head -1 | awk '{print $2}' | sed 's/_test$//'); fi
